@@ -11,10 +11,6 @@ Local Open Scope Z_scope.
 Section Env.
 Variable types : list (bytes * snode).
 Definition known (r : bytes) : Prop := exists t, plookup r types = Some t.
-(* Check() of the schema and of every registered type *)
-Definition accepted_e (n : snode) : Prop := accepted_g known n.
-Definition types_accepted : Prop := forall r t, plookup r types = Some t -> accepted_e t.
-
 (* the values a schema accepts, by derivations of height at most h *)
 Inductive insth : nat -> snode -> jval -> Prop :=
 | ih_leaf h ex l v : validate l (Some ex) v = true -> lit_ok v -> insth h (SLeaf ex l) (JLit v)
@@ -22,6 +18,12 @@ Inductive insth : nat -> snode -> jval -> Prop :=
 | ih_or h ex alts nu l v : In (OALeaf l) alts -> validate l (Some ex) v = true -> lit_ok v -> insth h (SOr ex alts nu) (JLit v)
 | ih_arr_null h items mn mx : insth h (SArr items mn mx true) (JLit w_null_lit)
 | ih_obj_null h ms ap : insth h (SObj ms ap true) (JLit w_null_lit)
+| ih_or_ref_null h ex alts nu r : In (OARef r true) alts -> insth h (SOr ex alts nu) (JLit w_null_lit)
+| ih_or_ref h ex alts nu r rn t v : In (OARef r rn) alts -> plookup r types = Some t -> insth h t v -> insth (S h) (SOr ex alts nu) v
+| ih_choice_null h names : insth h (SChoice names true) (JLit w_null_lit)
+| ih_choice h names nu r t v : In r names -> plookup r types = Some t -> insth h t v -> insth (S h) (SChoice names nu) v
+| ih_reflit_null h ex r : insth h (SRefLit ex r true) (JLit w_null_lit)
+| ih_reflit h ex r nu t v : plookup r types = Some t -> insth h t v -> insth (S h) (SRefLit ex r nu) v
 | ih_ref_null h r : insth h (SRef r true) (JLit w_null_lit)
 | ih_ref h r nu t v : plookup r types = Some t -> insth h t v -> insth (S h) (SRef r nu) v
 | ih_arr h items mn mx nu vs :
@@ -36,6 +38,11 @@ Inductive insth : nat -> snode -> jval -> Prop :=
        (plookup k ms = None /\ exists r t, ap = APRef r /\ plookup r types = Some t /\ insth h t v)) ->
     insth (S h) (SObj ms ap nu) (JObj vs).
 Definition inst_e (n : snode) (v : jval) : Prop := exists h, insth h n v.
+(* the type named r accepts v *)
+Definition refacc (r : bytes) (v : jval) : Prop := exists t, plookup r types = Some t /\ inst_e t v.
+(* Check() of the schema and of every registered type *)
+Definition accepted_e (n : snode) : Prop := accepted_g known refacc n.
+Definition types_accepted : Prop := forall r t, plookup r types = Some t -> accepted_e t.
 
 Lemma comps_lookup r t : plookup r types = Some t -> plookup r (comps types) = Some (to_otree t).
 Proof.
@@ -54,7 +61,9 @@ Qed.
 Theorem tree_sound_env : types_accepted -> forall h n v, accepted_e n -> insth h n v -> tvalid_e types (to_otree n) v.
 Proof.
   intros Hty. induction h as [|h IH]; intros n v Hacc Hi.
-  all: inversion Hi as [? ex l v0 Hv [Hs Hn]|? ex alts|? ex alts nu l v0 Hin Hv [Hs Hn]|? items mn mx|? ms ap|? r
+  all: inversion Hi as [? ex l v0 Hv [Hs Hn]|? ex alts|? ex alts nu l v0 Hin Hv [Hs Hn]|? items mn mx|? ms ap
+                        |? ex alts nu r Hinr|h0 ex alts nu r rn t v0 Hinr Hl Ht|? names|h0 names nu r t v0 Hinr Hl Ht
+                        |? ex r|h0 ex r nu t v0 Hl Ht|? r
                         |h0 r nu t v0 Hl Ht|h0 items mn mx nu vs Hmn Hmx Hempty Hall|h0 ms ap nu vs Hreq Hall]; subst; cbn [to_otree].
   (* the cases that do not look below: the same for h = 0 and h = S h *)
   all: try solve [constructor].
@@ -62,17 +71,26 @@ Proof.
     constructor; destruct Hacc as (Hex & [Hes Hen] & Hr); destruct l as [k rules|];
     [exact (oasx_sound ex k rules v0 Hs Hr Hn Hen Hex Hv)|right; cbn; repeat split; try exact I; intros; discriminate] ].
   all: try solve [ (* or, null *)
-    destruct (lit_kind ex); try apply te_any_null; constructor; right; cbn; repeat split; try exact I; intros; discriminate ].
-  all: try solve [ (* or *)
+    destruct (lit_kind ex); try apply te_any_null; apply te_empty ].
+  all: try solve [ (* or, a scalar alternative *)
     destruct Hacc as (_ & Halts & _);
-    assert (Hnullnode : forall v1, tvalid_e types (OLeaf (mk_oasx None None None None None None None nu)) (JLit v1))
-      by (intros v1; constructor; right; cbn; repeat split; try exact I; intros; discriminate);
-    destruct (lit_kind ex) eqn:Kex; try apply Hnullnode;
+    destruct (lit_kind ex) eqn:Kex; try apply te_empty;
     apply (te_any _ _ _ (OLeaf (to_oasx_alt ex l)));
     try (apply in_map_iff; exists (OALeaf l); split; [reflexivity|exact Hin]);
     (constructor; destruct (Halts l Hin) as [Hr Hwf]; destruct l as [k rules|];
      [apply (oasx_alt_sound ex k rules v0 Hs Hr Hn Hv); intros ->; exact Hwf
      |right; cbn; repeat split; try exact I; intros; discriminate]) ].
+  all: try solve [ (* or, null through a nullable type alternative *)
+    destruct (lit_kind ex); try apply te_empty;
+    (apply (te_any _ _ _ (ORef r true)); [apply in_map_iff; exists (OARef r true); split; [reflexivity|exact Hinr]|apply te_ref_null]) ].
+  - (* or, a type alternative *)
+    destruct (lit_kind ex); try apply te_empty.
+    all: apply (te_any _ _ _ (ORef r rn)); [apply in_map_iff; exists (OARef r rn); split; [reflexivity|exact Hinr]|].
+    all: apply (te_ref types r rn (to_otree t) v); [exact (comps_lookup r t Hl)|exact (IH t v (Hty r t Hl) Ht)].
+  - (* type choice *)
+    apply (te_choice types names nu r (to_otree t) v Hinr); [exact (comps_lookup r t Hl)|exact (IH t v (Hty r t Hl) Ht)].
+  - (* a literal with type: "@r" *)
+    apply (te_ref types r nu (to_otree t) v); [exact (comps_lookup r t Hl)|exact (IH t v (Hty r t Hl) Ht)].
   - (* reference *)
     apply (te_ref types r nu (to_otree t) v); [exact (comps_lookup r t Hl)|]. exact (IH t v (Hty r t Hl) Ht).
   - (* array *)
@@ -80,7 +98,7 @@ Proof.
     + intros m Hm. apply int64_opt_some in Hm. exact (Hmn m Hm).
     + intros m Hm. destruct items as [|i0 ir]; [inversion Hm; subst; rewrite (Hempty eq_refl); cbn; lia|]. apply int64_opt_some in Hm. exact (Hmx m Hm).
     + intros x Hx. right. destruct (Hall x Hx) as (it & Hit & Hinst). exists (to_otree it). split; [apply in_map; exact Hit|].
-      exact (IH it x (accepted_items _ items Hitems it Hit) Hinst).
+      exact (IH it x (accepted_items _ _ items Hitems it Hit) Hinst).
   - (* object *)
     destruct Hacc as ((Hnd & Hap) & Hms). apply te_obj.
     + intros k Hk. apply in_map_iff in Hk. destruct Hk as ([k' [o n0]] & Hk' & Hf). cbn [fst] in Hk'. subst k'.
@@ -94,7 +112,7 @@ Proof.
       destruct (Hall k x Hx) as [(o & n0 & Hl & Hinst)|[[Hl Hap']|(Hl & r & t & -> & Hr & Hinst)]].
       * left. exists (to_otree n0). split; [rewrite (Hlk _ Hl); reflexivity|].
         pose proof (plookup_in k (o, n0) ms Hl) as Hin.
-        exact (IH n0 x (accepted_members _ ms Hms _ Hin) Hinst).
+        exact (IH n0 x (accepted_members _ _ ms Hms _ Hin) Hinst).
       * right; left. split; [rewrite (Hlk _ Hl); reflexivity|exact Hap'].
       * right; right. split; [rewrite (Hlk _ Hl); reflexivity|]. exists r, (to_otree t). split; [reflexivity|]. split; [exact (comps_lookup r t Hr)|].
         exact (IH t x (Hty r t Hr) Hinst).
@@ -104,9 +122,13 @@ Qed.
 Lemma insth_mono : forall h n v, insth h n v -> forall h', (h <= h')%nat -> insth h' n v.
 Proof.
   induction h as [|h IH]; intros n v Hi h' Hle.
-  - inversion Hi; subst; [apply ih_leaf|apply ih_or_null|eapply ih_or|apply ih_arr_null|apply ih_obj_null|apply ih_ref_null]; eassumption.
-  - inversion Hi as [| | | | | |h0 r nu t v0 Hl Ht|h0 items mn mx nu vs Hmn Hmx Hempty Hall|h0 ms ap nu vs Hreq Hall]; subst;
-      try solve [first [apply ih_leaf|apply ih_or_null|eapply ih_or|apply ih_arr_null|apply ih_obj_null|apply ih_ref_null]; eassumption].
+  - inversion Hi; subst; solve [econstructor; eassumption].
+  - inversion Hi as [| | | | | |h0 ex alts nu r rn t v0 Hinr Hl Ht| |h0 names nu r t v0 Hinr Hl Ht| |h0 ex r nu t v0 Hl Ht|
+                     |h0 r nu t v0 Hl Ht|h0 items mn mx nu vs Hmn Hmx Hempty Hall|h0 ms ap nu vs Hreq Hall]; subst;
+      try solve [econstructor; eassumption].
+    + destruct h' as [|h']; [lia|]. apply (ih_or_ref h' ex alts nu r rn t v Hinr Hl). apply (IH t v Ht). lia.
+    + destruct h' as [|h']; [lia|]. apply (ih_choice h' names nu r t v Hinr Hl). apply (IH t v Ht). lia.
+    + destruct h' as [|h']; [lia|]. apply (ih_reflit h' ex r nu t v Hl). apply (IH t v Ht). lia.
     + destruct h' as [|h']; [lia|]. apply (ih_ref h' r nu t v Hl). apply (IH t v Ht). lia.
     + destruct h' as [|h']; [lia|]. apply ih_arr; auto. intros x Hx. destruct (Hall x Hx) as (it & Hit & Hinst). exists it. split; [exact Hit|]. apply (IH it x Hinst). lia.
     + destruct h' as [|h']; [lia|]. apply ih_obj; auto. intros k x Hx.
@@ -132,33 +154,58 @@ Proof.
   destruct (IH ys eq_refl x Hx) as (v & Hv & Hf). exists v. split; [right; exact Hv|exact Hf].
 Qed.
 
+(* derivations of the members of a finite list fit under one height *)
+Lemma common_height {A} (P : nat -> A -> Prop) (l : list A) :
+  (forall h h' x, (h <= h')%nat -> P h x -> P h' x) -> (forall x, In x l -> exists h, P h x) -> exists H, forall x, In x l -> P H x.
+Proof.
+  intros Hmono. induction l as [|y r IH]; intros Hall; [exists 0%nat; intros x []|].
+  destruct (Hall y (or_introl eq_refl)) as [h1 H1]. destruct (IH (fun x Hx => Hall x (or_intror Hx))) as [h2 H2].
+  exists (Nat.max h1 h2). intros x [->|Hx]; [apply (Hmono h1); [lia|exact H1]|apply (Hmono h2); [lia|exact (H2 x Hx)]].
+Qed.
+
 (* the example of an accepted schema (references not recursive: the fuel suffices) is a value the schema accepts *)
-Theorem example_e_inst : types_accepted -> forall fuel n v, accepted_e n -> example_e types fuel n = Some v -> insth fuel n v.
+Theorem example_e_inst : types_accepted -> forall fuel n v, accepted_e n -> example_e types fuel n = Some v -> inst_e n v.
 Proof.
   intros Hty. induction fuel as [|f IH]; intros n v Hacc He; [discriminate|]. cbn [example_e] in He.
-  destruct n as [ex l|ex alts nu|items mn mx nu|ms ap nu|r nu].
-  - inversion He; subst. destruct Hacc as (Hex & Hlit & _). constructor; assumption.
-  - inversion He; subst. destruct Hacc as (Hlit & _ & [[-> ->]|(l & Hin & Hv)]); [apply ih_or_null|exact (ih_or _ ex alts nu l ex Hin Hv Hlit)].
+  destruct n as [ex l|ex alts nu|items mn mx nu|ms ap nu|r nu|names nu|ex r nu].
+  - inversion He; subst. destruct Hacc as (Hex & Hlit & _). exists 0%nat. constructor; assumption.
+  - inversion He; subst. destruct Hacc as (Hlit & _ & _ & [[-> ->]|[(l & Hin & Hv)|(r & rn & Hin & t & Hl & h & Ht)]]).
+    + exists 0%nat. apply ih_or_null.
+    + exists 0%nat. exact (ih_or _ ex alts nu l ex Hin Hv Hlit).
+    + exists (S h). exact (ih_or_ref h ex alts nu r rn t (JLit ex) Hin Hl Ht).
   - destruct (all_some (map (example_e types f) items)) as [vs|] eqn:E; [|discriminate]. inversion He; subst.
     destruct Hacc as (Hmn & Hmx & Hitems). destruct (all_some_map _ _ _ E) as [Hlen Hin].
-    apply ih_arr.
+    destruct (common_height (fun h x => exists it, In it items /\ insth h it x) vs) as [H HH].
+    { intros h h' x Hle (it & Hit & Hi). exists it. split; [exact Hit|exact (insth_mono h it x Hi h' Hle)]. }
+    { intros x Hx. destruct (Hin x Hx) as (it & Hit & Hf). destruct (IH it x (accepted_items _ _ items Hitems it Hit) Hf) as [h Hh].
+      exists h, it. split; assumption. }
+    exists (S H). apply ih_arr.
     + intros m Hm. rewrite Hlen. exact (Hmn m Hm).
     + intros m Hm. rewrite Hlen. exact (Hmx m Hm).
     + intros ->. cbn in E. inversion E; reflexivity.
-    + intros x Hx. destruct (Hin x Hx) as (it & Hit & Hf). exists it. split; [exact Hit|].
-      exact (IH it x (accepted_items _ items Hitems it Hit) Hf).
+    + exact HH.
   - destruct (all_some (map (fun m : bytes * (bool * snode) => option_map (fun v0 => (fst m, v0)) (example_e types f (snd (snd m)))) ms)) as [vs|] eqn:E; [|discriminate].
-    inversion He; subst. destruct Hacc as ((Hnd & _) & Hms). apply ih_obj.
+    inversion He; subst. destruct Hacc as ((Hnd & _) & Hms).
+    destruct (common_height (fun h (kx : bytes * jval) => exists o n0, plookup (fst kx) ms = Some (o, n0) /\ insth h n0 (snd kx)) vs) as [H HH].
+    { intros h h' x Hle (o & n0 & Hl & Hi). exists o, n0. split; [exact Hl|exact (insth_mono h n0 _ Hi h' Hle)]. }
+    { intros [k x] Hx. destruct (all_some_map _ _ _ E) as [_ Hin]. destruct (Hin (k, x) Hx) as ([k' [o n0]] & Hm & Hf). cbn [fst snd] in Hf.
+      destruct (example_e types f n0) as [w|] eqn:Ew; [|discriminate]. cbn in Hf. inversion Hf; subst k' w.
+      destruct (IH n0 x (accepted_members _ _ ms Hms _ Hm) Ew) as [h Hh].
+      exists h, o, n0. split; [exact (plookup_nodup k (o, n0) ms Hnd Hm)|exact Hh]. }
+    exists (S H). apply ih_obj.
     + intros k o n0 Hin _. destruct (all_some_cover _ _ _ E (k, (o, n0)) Hin) as (kv & Hkv & Hf). cbn [fst snd] in Hf.
       destruct (example_e types f n0) as [w|]; [|discriminate]. cbn in Hf. inversion Hf; subst. exists w. exact Hkv.
-    + intros k x Hx. destruct (all_some_map _ _ _ E) as [_ Hin]. destruct (Hin (k, x) Hx) as ([k' [o n0]] & Hm & Hf). cbn [fst snd] in Hf.
-      destruct (example_e types f n0) as [w|] eqn:Ew; [|discriminate]. cbn in Hf. inversion Hf; subst k' w.
-      left. exists o, n0. split; [exact (plookup_nodup k (o, n0) ms Hnd Hm)|].
-      exact (IH n0 x (accepted_members _ ms Hms _ Hm) Ew).
-  - destruct (plookup r types) as [t|] eqn:El; [|discriminate]. apply (ih_ref f r nu t v El). exact (IH t v (Hty r t El) He).
+    + intros k x Hx. left. destruct (HH (k, x) Hx) as (o & n0 & Hl & Hi). exists o, n0. split; assumption.
+  - destruct (plookup r types) as [t|] eqn:El; [|discriminate]. destruct (IH t v (Hty r t El) He) as [h Hh].
+    exists (S h). exact (ih_ref h r nu t v El Hh).
+  - destruct names as [|r rs]; [discriminate|]. destruct (plookup r types) as [t|] eqn:El; [|discriminate].
+    destruct (IH t v (Hty r t El) He) as [h Hh]. exists (S h). exact (ih_choice h (r :: rs) nu r t v (or_introl eq_refl) El Hh).
+  - inversion He; subst. destruct Hacc as (_ & Hlit & [[-> ->]|(t & Hl & h & Ht)]).
+    + exists 0%nat. apply ih_reflit_null.
+    + exists (S h). exact (ih_reflit h ex r nu t (JLit ex) Hl Ht).
 Qed.
 
 (* C08 with references *)
 Theorem example_e_valid : types_accepted -> forall fuel n v, accepted_e n -> example_e types fuel n = Some v -> tvalid_e types (to_otree n) v.
-Proof. intros Hty fuel n v Hacc He. exact (tree_sound_env Hty fuel n v Hacc (example_e_inst Hty fuel n v Hacc He)). Qed.
+Proof. intros Hty fuel n v Hacc He. destruct (example_e_inst Hty fuel n v Hacc He) as [h Hh]. exact (tree_sound_env Hty h n v Hacc Hh). Qed.
 End Env.
